@@ -52,9 +52,25 @@ def judge(feats: Sequence[str], cfg: Sequence[str], res: Dict[str, Any]) -> None
             res['samples'].append({'features': list(feats), 'config': list(cfg), 'pages': len(pages), 'links_followed': nlinks})
 
 
+def hideable_containers(feats: Sequence[str]) -> List[str]:
+    from pydoctor import model
+    with site.run(feats) as r:
+        if r.system is None:
+            return []
+        roots = [o.fullName() for o in r.system.rootobjects]
+        out = []
+        for k, o in r.system.allobjects.items():
+            if isinstance(o, model.Module) and o.isVisible and ' ' not in k and not (k in roots and len(roots) == 1):
+                out.append(k)
+        return out
+
+
 def jobs(tier: str) -> Iterable[Tuple[str, Any]]:
     for f in site.NAMES:
         yield ('singles:all-configs', ('single', f))
+    for f in site.NAMES:
+        if f != 'many-mods':
+            yield ('singles:each-module-or-root-hidden', ('hidden', f))
     for f in site.NAMES:
         yield ('pairs:default-config', ('pairs', f, [[]]))
     if tier == 'thorough':
@@ -69,6 +85,10 @@ def run_job(job: Any, tier: str) -> Dict[str, Any]:
     if job[0] == 'single':
         for cfg in site.CONFIGS:
             judge([job[1]], cfg, res)
+    elif job[0] == 'hidden':
+        # a site with one module, package or root hidden is still a site: what is left has no dead links, and the start page exists
+        for name in hideable_containers([job[1]]):
+            judge([job[1]], ['--privacy', 'HIDDEN:' + name], res)
     elif job[0] == 'pairs':
         _, f, cfgs = job
         for g in site.NAMES[site.NAMES.index(f) + 1:]:
